@@ -8,6 +8,7 @@ import (
 	"os"
 	"path/filepath"
 	"strconv"
+	"syscall"
 	"time"
 
 	"jrpcvet/internal/chk"
@@ -107,6 +108,11 @@ func runOne(def *props.Def, tier, repo string, seed int, evidencePath string, kn
 	}()
 	configs := []load.Config{{Dir: repo}}
 	if tier == "thorough" {
+		// the thorough tier analyses several hundred variants of the tree and peaks at about
+		// 5 GB: runs started side by side take turns
+		if unlock := serialise(); unlock != nil {
+			defer unlock()
+		}
 		configs = append(configs,
 			load.Config{Dir: repo, Env: []string{"GOOS=darwin", "GOARCH=arm64"}},
 			load.Config{Dir: repo, Env: []string{"GOOS=windows", "GOARCH=amd64"}},
@@ -146,4 +152,22 @@ func runOne(def *props.Def, tier, repo string, seed int, evidencePath string, kn
 
 func analyse(def *props.Def, cfg load.Config, tier string) ([]chk.Obligation, int) {
 	return props.Analyse(def, cfg, tier)
+}
+
+// serialise takes an exclusive advisory lock shared by all thorough-tier runs
+// on this machine; it returns the function that releases it (nil if the lock
+// file cannot be opened, in which case the run simply proceeds).
+func serialise() func() {
+	f, err := os.OpenFile(filepath.Join(os.TempDir(), "jrpcvet-thorough.lock"), os.O_CREATE|os.O_RDWR, 0o666)
+	if err != nil {
+		return nil
+	}
+	if err := syscall.Flock(int(f.Fd()), syscall.LOCK_EX); err != nil {
+		f.Close()
+		return nil
+	}
+	return func() {
+		syscall.Flock(int(f.Fd()), syscall.LOCK_UN)
+		f.Close()
+	}
 }
